@@ -30,6 +30,9 @@ def main(argv):
         print("usage: check <Cxx>|dump <pat>|all [--tier quick|thorough]"); return 2
     if argv[0] == "dump":
         return cmd_dump(argv[1:])
+    if argv[0] == "selftest":
+        import selftest
+        return selftest.main(argv[1:])
     if argv[0] == "ts":
         return cmd_ts(argv[1:])
     import runner
